@@ -271,7 +271,7 @@ class Ctx:
 
 def explore(prog, entry, make_args, world_factory=None, check=None, max_paths=5000, shard=None, **kw):
     """depth-first exploration by re-execution with decision prefixes.  entry: MIR function key or python callable(ctx, *args).
-    shard=(i, k): all k workers first expand the decision tree breadth-first (identically) until there are >= 4k open
+    shard=(i, k): all k workers first expand the decision tree breadth-first (identically) until there are ≥ 12k open
     prefixes, then worker i continues with every k-th one.  returns list of (ctx, outcome)"""
     def run_one(prefix):
         ctx = Ctx(prog, prefix, world_factory, **kw)
@@ -301,7 +301,7 @@ def explore(prog, entry, make_args, world_factory=None, check=None, max_paths=50
     if shard is not None:
         i, k = shard
         frontier, seeded = [[]], []
-        while frontier and len(frontier) < 4 * k:
+        while frontier and len(frontier) < 12 * k:
             prefix = frontier.pop(0)
             ctx, out, alts = run_one(prefix)
             frontier.extend(alts)
@@ -851,6 +851,12 @@ class Program:
                 ctx.summ_used.add(k)
                 return self.summaries[k](ctx, Call(self, f, callee, key, selfty, gen, argv, ctx.tyenv, term))
         name = self.resolve_local(callee) if not callee.startswith("<") else self.resolve_trait_local(callee, selfty, key)
+        if name is None and callee.startswith("<") and argv:
+            # trait method on a generic / dyn receiver: dispatch on the runtime type of the receiver value
+            recv = deref(argv[0])
+            parts = key.split("::")
+            if isinstance(recv, Adt) and len(parts) == 2:
+                name = self.impl_index.get((recv.ty, parts[0], parts[1]))
         if name:
             return self.call(ctx, name, argv, site=(f, term) if (f is not None and term is not None) else None)
         raise Unsupported(f"no summary for {callee}  [key={key}] in {f.name}")
